@@ -4,6 +4,7 @@ import (
 	"fmt"
 	"go/constant"
 	"go/types"
+	"path/filepath"
 	"strings"
 
 	"golang.org/x/tools/go/ssa"
@@ -71,18 +72,18 @@ type progPoint struct {
 }
 
 type Eval struct {
-	ex    *Exec
-	st    *State
-	old   *State
-	params map[string]TV // function parameters (entry values); shadowed by like-named locals at loop cuts
-	vars  map[string]TV
-	ts    TSubst
-	fn    *ssa.Function
-	pkg   *types.Package
-	point *progPoint
-	depth int
-	inOld bool
-	loopOld *State // state at entry of the loop whose invariant is being evaluated (lold)
+	ex      *Exec
+	st      *State
+	old     *State
+	params  map[string]TV // function parameters (entry values); shadowed by like-named locals at loop cuts
+	vars    map[string]TV
+	ts      TSubst
+	fn      *ssa.Function
+	pkg     *types.Package
+	point   *progPoint
+	depth   int
+	inOld   bool
+	loopOld *State            // state at entry of the loop whose invariant is being evaluated (lold)
 	overlay map[ssa.Value]Val // loop-cut overlay to install while this evaluator runs
 	exitCtx bool              // evaluating ensures / exit-ghost: a parameter name means its entry value
 }
@@ -313,6 +314,18 @@ func (ev *Eval) eval(e Expr) TV {
 		x := ev.eval(e.X)
 		if x.Addr {
 			return TV{T: x.T, Ty: goVT(types.NewPointer(x.Ty.Go))}
+		}
+		if id, ok := e.X.(EIdent); ok && ev.point != nil {
+			// &v for a Go local that lives in memory (its address is taken somewhere in the body)
+			for _, b := range ev.ex.fn.Blocks {
+				for _, ins := range b.Instrs {
+					if al, ok := ins.(*ssa.Alloc); ok && al.Comment == id.Name && ev.ex.availableAt(al, ev.point) {
+						if v := ev.ex.val(al); v.Loc == nil && v.T != "" {
+							return TV{T: v.T, Ty: goVT(ev.ex.typ(al.Type()))}
+						}
+					}
+				}
+			}
 		}
 		ev.errorf("cannot take the address of this expression")
 		return TV{T: "0", Ty: vtInt}
@@ -1098,6 +1111,12 @@ func (ev *Eval) applyPred(pd *PredDef, e ECall) TV {
 		sub.vars[p.Name] = a
 	}
 	sub.point = nil
+	// type names in the body mean what they mean in the package whose contract file defines the predicate
+	if k := strings.LastIndex(pd.Src, ":"); k > 0 {
+		if tp := ev.vc().w.DirPkg[filepath.Dir(pd.Src[:k])]; tp != nil && tp != ev.pkg {
+			sub.pkg = tp
+		}
+	}
 	return sub.eval(pd.Body)
 }
 
@@ -1455,9 +1474,18 @@ func (ex *Exec) resolveLocal(name string, pt *progPoint, st *State) (TV, bool) {
 	}
 	var best *cand
 	var bestE eff
+	// a variable that lives in memory (its address is taken): the content of its cell is its value, whatever
+	// values were stored into it along the way
+	memVar := false
 	for i := range cands {
 		c := &cands[i]
-		if !ex.availableAt(c.v, pt) {
+		if c.alloc && ex.availableAt(c.v, pt) && ((c.block == pt.block && c.idx < pt.idx) || (c.block != pt.block && c.block.Dominates(pt.block))) {
+			memVar = true
+		}
+	}
+	for i := range cands {
+		c := &cands[i]
+		if !ex.availableAt(c.v, pt) || (memVar && !c.alloc) {
 			continue
 		}
 		executed := (c.block == pt.block && c.idx < pt.idx) || (c.block != pt.block && c.block.Dominates(pt.block))
